@@ -58,6 +58,22 @@ class FileStandIn:
         return self.text
 
 
+class IterStandIn:
+    """`iter(xs)` over a list / tuple: a position that loops and next() advance, shared by everything that holds the iterator"""
+
+    def __init__(self, items):
+        self.items, self.pos = list(items), 0
+
+    def __iter__(self):
+        return self
+
+    def __next__(self):
+        if self.pos >= len(self.items):
+            raise StopIteration
+        self.pos += 1
+        return self.items[self.pos - 1]
+
+
 class Namespace:
     """a stand-in for an imported module (`path`, `os`): attributes are python callables"""
 
@@ -222,10 +238,10 @@ class Evaluator:
                     raise Undecided("del target")
         elif isinstance(s, ast.For):
             it = self._expr(s.iter, env, mod, cls)
-            if not isinstance(it, (list, tuple, range, bytes, str, dict)):
+            if not isinstance(it, (list, tuple, range, bytes, str, dict, IterStandIn)):
                 raise Undecided("iteration over %s" % type(it).__name__)
             broke = False
-            for x in list(it):
+            for x in (it if isinstance(it, IterStandIn) else list(it)):
                 self._store(s.target, x, env, mod, cls)
                 try:
                     self._block(s.body, env, mod, cls)
@@ -248,6 +264,8 @@ class Evaluator:
                     break
                 except _Continue:
                     continue
+            else:
+                self._block(s.orelse, env, mod, cls)
         elif isinstance(s, ast.Break):
             raise _Break()
         elif isinstance(s, ast.Continue):
@@ -661,6 +679,23 @@ class Evaluator:
                     else:
                         raise Undecided("isinstance against %r" % (t,))
                 return False
+            if nm == "iter" and len(e.args) == 1 and not e.keywords:
+                v = self._expr(e.args[0], env, mod, cls)
+                if isinstance(v, IterStandIn):
+                    return v
+                if not isinstance(v, (list, tuple)):
+                    raise Undecided("iter() of %s" % type(v).__name__)
+                return IterStandIn(v)
+            if nm == "next" and len(e.args) in (1, 2) and not e.keywords:
+                v = self._expr(e.args[0], env, mod, cls)
+                if not isinstance(v, IterStandIn):
+                    raise Undecided("next() of %s" % type(v).__name__)
+                try:
+                    return next(v)
+                except StopIteration:
+                    if len(e.args) == 2:
+                        return self._expr(e.args[1], env, mod, cls)
+                    raise Raised("StopIteration", e)
             if nm == "type" and len(e.args) == 1 and not e.keywords:
                 v = self._expr(e.args[0], env, mod, cls)
                 if isinstance(v, (Obj, ClassRef, SuperRef)) or (isinstance(v, tuple) and v and v[0] in ("func", "pyfunc", "method", "pymethod")):
